@@ -19,12 +19,13 @@ Definition documented : machine cls :=
 Definition known_broken (k : cls) : bool :=
   match k with KRotate | KFlip => true | _ => false end.
 Definition op_claimed (o : op cls) : bool :=
-  match o with MulClass k => negb (known_broken k) | _ => true end.
+  match o with MulClass k _ => negb (known_broken k) | _ => true end.
 Definition is_fft (o : op cls) : bool :=
   match o with Propagate Fft => true | _ => false end.
 (* a step that never hands a tilt to a wavefront that had none *)
 Definition untilting (o : op cls) : bool :=
-  forallb (fun w => negb (tilted (next (step observed (St w false) o)))) [WNone; WPupil; WImage].
+  forallb (fun s => negb (tilted (next (step observed s o))))
+          [St WNone Plain; St WPupil Plain; St WImage Plain; St WNone Empty; St WPupil Empty; St WImage Empty].
 
 (* ---- the documentation read on types alone (no tilt bit at all) ---- *)
 Inductive toutcome := TYields (t : wtype) | TRaises (e : exc) (kept : wtype).
@@ -34,9 +35,10 @@ Definition tdoc (w : wtype) (d : option wtype) : toutcome :=
   match d with Some t => TYields t | None => TRaises ETypeError w end.
 Definition tstep (w : wtype) (o : op cls) : toutcome :=
   match o with
-  | MulType p => tdoc w (doc_mul w p)
-  | MulClass k => tdoc w (doc_mul w (eff_ptype k))
+  | MulType p _ => tdoc w (doc_mul w p)
+  | MulClass k _ => tdoc w (doc_mul w (eff_ptype k))
   | Propagate m => tdoc w (doc_prop m w)
+  | Fresh s => TYields (ty s)
   end.
 Definition tnext (x : toutcome) : wtype := match x with TYields t => t | TRaises _ k => k end.
 Fixpoint run_types (w : wtype) (ops : list (op cls)) : list toutcome :=
